@@ -9,6 +9,7 @@ import (
 	"math"
 	"math/big"
 	"math/rand"
+	"os"
 	"path/filepath"
 	"strings"
 	"testing"
@@ -317,7 +318,7 @@ func c13Helpers(c *c13) {
 	}
 	nd := 220
 	if thorough {
-		nd = 2500
+		nd = 1500
 	}
 	for i := 0; i < nd; i++ {
 		n := 1 + r.Intn(7)
@@ -378,7 +379,7 @@ func c13Helpers(c *c13) {
 	// --- codec
 	nc := 45
 	if thorough {
-		nc = 450
+		nc = 300
 	}
 	c.codec(r, deploy.VerifSharedTxData{})
 	c.codec(r, deploy.VerifSharedTxData{ValidUntilBlock: math.MaxUint32, Nonce: math.MaxUint32})
@@ -417,13 +418,37 @@ func TestC13(t *testing.T) {
 	c := &c13{t: t, st: st, seen: map[string]bool{}}
 	c13Helpers(c)
 	extraDefs, extraM := c13Bootstrap(c)
+	if os.Getenv("VERIF_C13_NO_E2E") == "" {
+		d2, m2 := c13EndToEnd(c)
+		extraDefs, extraM = extraDefs+d2, extraM+m2
+	}
 
-	cf := &CasesFile{Pool: NewPool("b")}
-	cf.Header = "From Verif Require Import Base.Prelude Model.DeployHelpers Model.DeployProto.\nLocal Open Scope Z_scope.\n"
-	cf.Cases = c.cases
-	cf.Footer = extraDefs +
-		"Definition M := Eval vm_compute in failures_from 0 (map check_hcase cases" + extraM + ").\nPrint M.\n"
-	require.NoError(t, cf.Write(filepath.Join(OutDir(), "cases_C13.v")))
+	// cases_C13.v, cases_C13_1.v, ...: helper cases in chunks; the last file holds the protocol and end-to-end cases
+	header := "From Verif Require Import Base.Prelude Model.DeployHelpers Model.DeployProto.\nLocal Open Scope Z_scope.\n"
+	const chunk = 380_000
+	var files [][]string
+	size := 0
+	for _, cs := range c.cases {
+		if len(files) == 0 || size+len(cs) > chunk {
+			files = append(files, nil)
+			size = 0
+		}
+		files[len(files)-1] = append(files[len(files)-1], cs)
+		size += len(cs)
+	}
+	name := func(i int) string {
+		if i == 0 {
+			return "cases_C13.v"
+		}
+		return fmt.Sprintf("cases_C13_%d.v", i)
+	}
+	for i, f := range files {
+		cf := &CasesFile{Pool: NewPool("b"), Header: header, Cases: f,
+			Footer: "Definition M := Eval vm_compute in failures_from 0 (map check_hcase cases).\nPrint M.\n"}
+		require.NoError(t, cf.Write(filepath.Join(OutDir(), name(i))))
+	}
+	require.NoError(t, os.WriteFile(filepath.Join(OutDir(), name(len(files))), []byte(header+extraDefs+
+		"Definition M := Eval vm_compute in failures_from 0 ([]"+extraM+").\nPrint M.\n"), 0o644))
 
 	st.Samples = append([]any{
 		map[string]any{"helper": "divideFundsEvenly", "input": "amount=16 n=3", "callbacks": "[(0,6) (1,5) (2,5)]"},
@@ -431,7 +456,7 @@ func TestC13(t *testing.T) {
 	}, st.Samples...)
 	st.Histories += len(c.cases)
 	st.DistinctNontrivial = c.nontr
-	st.Rule = "distinct (helper, input, observed output) cases written to cases_C13.v, not counting divide cases with no callback and refused window cases; plus distinct notary-bootstrap runs (committee size, live set, schedule) that sent at least one transaction"
+	st.Rule = "distinct (helper, input, observed output) cases written to cases_C13.v, not counting divide cases with no callback and refused window cases; plus distinct notary-bootstrap runs (committee size, live set, schedule) that sent at least one transaction, plus end-to-end deploy.Deploy runs in which every member returned nil"
 	st.Write()
 	require.Empty(t, st.Violations)
 }
